@@ -725,6 +725,72 @@ def check_exception(prog, e, R, F, trans, hf, hcf, hblocks, stale_in):
     return True, 'reason by reading'
 
 
+
+def codec_writes_only_restore(prog, writers, R, F):
+    """a field that a SET request stores and that the codec ALSO assigns is only a surviving
+    *setting* when every codec assignment is part of a save / modify / restore of the user's value
+    inside one call:  tmp = fld; ... fld = x; ... fld = tmp;  with the save and the restore under the
+    same innermost guard and every other store dominated by the save.  Otherwise the codec leaves its
+    own values in the field and it is state.  Returns (ok, why)."""
+    for fn in sorted(writers):
+        f = prog.functions.get(fn)
+        if f is None:
+            return False, '%s not found' % fn
+        cf = cfgm.CFG(f)
+        stores = []
+        for b, i, s_ in cf.positions():
+            for n, lv in field_stores(sx.walk(s_)):
+                if lv[2] == R and lv[3] == F:
+                    stores.append((b, i, n))
+        if not stores:
+            continue    # writes through a callee, judged there
+        saves = []      # (b, i, local id)
+        for b, i, s_ in cf.positions():
+            for n in sx.walk(s_):
+                if n[0] == 'assign' and sx.kind(sx.strip(n[1])) == 'local':
+                    r = sx.strip(n[2])
+                    if sx.kind(r) == 'field' and r[2] == R and r[3] == F:
+                        saves.append((b, i, sx.strip(n[1])[2]))
+        restores = [(b, i, n) for b, i, n in stores if n[0] == 'assign' and sx.kind(sx.strip(n[2])) == 'local' and any(sx.strip(n[2])[2] == sv[2] for sv in saves)]
+        if not saves or not restores:
+            n0 = stores[0][2]
+            return False, '%s assigns it (`%s`, line %s) without saving and restoring the user value' % (fn, sx.show(n0)[:60], sx.line(n0))
+
+        def gset(b):
+            # guards over variables the function never assigns and that read no memory: loop-exit tests,
+            # assertion conditions and `(ret = f()) != 0` early-outs are not guards of the save/restore pair
+            out = set()
+            for c, pol, gb in cfgm.guards_of(cf, b):
+                if c is None:
+                    continue
+                vs = [v for v in sx.walk(c)]
+                if any(sx.kind(v) in ('field', 'idx', 'deref', 'call', 'assign', 'cassign', 'inc') for v in vs):
+                    continue
+                if any(sx.kind(v) in ('local', 'param') and sx.key(v) in assigned for v in vs):
+                    continue
+                out.add((sx.key(sx.strip(c)), pol))
+            return out
+        assigned = set()
+        for n in f.all_nodes():
+            if n[0] in ('assign', 'cassign', 'inc'):
+                lv = lv_of(n)
+                if sx.kind(lv) in ('local', 'param'):
+                    assigned.add(sx.key(lv))
+        for b, i, n in stores:
+            if (b, i, n) in restores:
+                # the restore runs whenever the save ran: its guards are among the save's, over variables nobody assigns
+                okr = False
+                for sb, si, sl in saves:
+                    gr, gs_ = gset(b), gset(sb)
+                    if gr <= gs_ and b in cf.reachable_from(sb):
+                        okr = True
+                if not okr:
+                    return False, '%s: the restore at line %s is not guaranteed to run whenever the save ran' % (fn, sx.line(n))
+            elif not any(cf.pos_dominates((sb, si), (b, i)) for sb, si, sl in saves):
+                return False, '%s: the store at line %s is not preceded by a save of the user value' % (fn, sx.line(n))
+    return True, 'every codec assignment is a save / modify / restore within one call'
+
+
 def r12_7_residue(rep, prog, settings, excmap):
     direct, trans = transitive_field_writes(prog)
     INITF = {'opus_encoder_init', 'opus_decoder_init', 'opus_custom_encoder_init_arch', 'opus_custom_decoder_init', 'celt_encoder_init', 'celt_decoder_init',
@@ -793,8 +859,8 @@ def r12_7_residue(rep, prog, settings, excmap):
                 where = prog.record(R)['loc']
                 if (R, F) in reest:
                     rep.holds('R12.7', inst, where, 're-established by the reset handler')
-                elif (R, F) in settings or (rec, shown) in settings:
-                    rep.holds('R12.7', inst, where, 'user setting (stored by a SET request): meant to survive')
+                elif ((R, F) in settings or (rec, shown) in settings) and codec_writes_only_restore(prog, writers, R, F)[0]:
+                    rep.holds('R12.7', inst, where, 'user setting (stored by a SET request), and ' + codec_writes_only_restore(prog, writers, R, F)[1] + ': meant to survive')
                 elif (rec, shown) in excmap:
                     e_ = excmap[(rec, shown)]
                     ok_, how = check_exception(prog, e_, R, F, trans, hf, hcf, hblocks, stale_in)
@@ -803,8 +869,11 @@ def r12_7_residue(rep, prog, settings, excmap):
                     else:
                         rep.violated('R12.7', inst + ' (listed exception no longer justified)', where, '%s - but %s' % (e_['reason'], how), key='%s.%s:exception' % (rec, shown))
                 else:
-                    rep.violated('R12.7', inst, where, 'the field lies before the reset marker, the codec writes it (%s) and reads the old value in a later call (%s), but OPUS_RESET_STATE does not re-initialise it: a reset object differs from a new one' %
-                                 (sorted(writers), sorted(stale_in)), key='%s.%s:residue' % (rec, shown))
+                    extra = ''
+                    if (R, F) in settings or (rec, shown) in settings:
+                        extra = ' (a SET request also stores it, but %s, so what survives is the codec\'s value, not the setting)' % codec_writes_only_restore(prog, writers, R, F)[1]
+                    rep.violated('R12.7', inst, where, 'the field lies before the reset marker, the codec writes it (%s) and reads the old value in a later call (%s), but OPUS_RESET_STATE does not re-initialise it: a reset object differs from a new one%s' %
+                                 (sorted(writers), sorted(stale_in), extra), key='%s.%s:residue' % (rec, shown))
     if nchecked < 6:
         rep.unresolved('R12.7', 'only %d out-of-region fields with cross-call reads found' % nchecked)
 
